@@ -230,8 +230,59 @@ func trunc(s string, n int) string {
 
 func (r *Run) Violations() int { r.mu.Lock(); defer r.mu.Unlock(); return r.violations }
 
+// ingestRaceLog turns the race detector's reports of the free-running pass into violations.
+func (r *Run) ingestRaceLog() {
+	f := os.Getenv("VERIF_RACE_LOG")
+	if f == "" {
+		return
+	}
+	b, err := os.ReadFile(f)
+	if err != nil {
+		r.Infra("race pass log missing: %v", err)
+		return
+	}
+	txt := string(b)
+	if !strings.Contains(txt, "\nok  \t") && !strings.Contains(txt, "FAIL\t") && !strings.HasPrefix(txt, "ok  \t") {
+		r.Infra("race pass did not run (build failure?): %s", trunc(txt, 400))
+		return
+	}
+	blocks := strings.Split(txt, "WARNING: DATA RACE")
+	keys := map[string]bool{}
+	for _, blk := range blocks[1:] {
+		// the first function of each of the two access stacks
+		var fns []string
+		lines := strings.Split(blk, "\n")
+		for i, l := range lines {
+			t := strings.TrimSpace(l)
+			if (strings.HasPrefix(t, "Read at") || strings.HasPrefix(t, "Write at") || strings.HasPrefix(t, "Previous read at") || strings.HasPrefix(t, "Previous write at")) && i+1 < len(lines) {
+				fn := strings.TrimSpace(lines[i+1])
+				if j := strings.LastIndex(fn, "/"); j >= 0 {
+					fn = fn[j+1:]
+				}
+				if j := strings.Index(fn, "("); j > 0 && strings.HasSuffix(fn, ")") {
+					fn = fn[:strings.LastIndex(fn, "(")]
+				}
+				fns = append(fns, fn)
+			}
+		}
+		sort.Strings(fns)
+		key := "race:" + strings.Join(fns, "|")
+		if !keys[key] {
+			keys[key] = true
+			end := len(blk)
+			if end > 3000 {
+				end = 3000
+			}
+			r.Violation(key, "data race reported by the free-running -race pass:"+blk[:end], map[string]string{"log": "race detector output", "report": blk[:end]})
+		}
+	}
+	r.Extra("race_pass", map[string]interface{}{"runs": os.Getenv("VERIF_RACE_RUNS"), "race_reports": len(blocks) - 1, "distinct": len(keys),
+		"note": "free-running go test -race of harness/<id>/race/*_test.go against the repository's in-process test server; sampled, not exhaustive, never decides the property on its own except by reporting a race"})
+}
+
 // Finish writes the evidence file and returns the process exit code.
 func (r *Run) Finish(exhaustive bool) int {
+	r.ingestRaceLog()
 	r.mu.Lock()
 	defer r.mu.Unlock()
 	cov := map[string]interface{}{}
